@@ -35,8 +35,11 @@ TITLE = "pessimistic rectangle comparison vs Lean model and exact per-vertex LP 
 RULE = ("kinds: pair-exact (dyadic boxes, integer-row cones incl. N>m, N<m, 3-D; shapes identical / nested / "
         "overlap / touch-face / touch-vertex / shifted-in-cone / slanted-edge / degenerate / equal-coords / "
         "random; exhaustive {0,1,2}-lattice boxes in thorough), pair-float (bundled cone families, random "
-        "angles, random N×m, data scales 1e-3…1e3, margin-targeted edge cases), pess (2–7 designs, S/P split, "
-        "three algorithm classes), seg (single intersections); non-trivial = per-vertex answers of R₁ are "
+        "angles, random N×m, data scales 1e-3…1e3, margin-targeted edge cases), pair-tie (3-D/4-D cones in which a "
+        "box edge/diagonal keeps one W-coordinate constant while others move oppositely, R1 tied exactly to that "
+        "constant just above the bounding-box corner of the segment), pess (2–7 designs, S/P split, three "
+        "algorithm classes; mutual-domination shapes: identical regions, shared lower corners, default ±1e12 "
+        "boxes, chains + cycles), seg (single intersections); non-trivial = per-vertex answers of R₁ are "
         "mixed or at least one goes through the edge path (pair), kept set is a proper non-empty subset "
         "(pess), an intersection point exists (seg); distinct by exact inputs")
 ASSUMPTIONS = [
@@ -57,7 +60,17 @@ EXTRA_EXACT = {
     "neg2": [[-1, 0], [0, -1]],
     "line3": [[1, 1, 1]],
     "five2": [[1, 0], [0, 1], [1, 1], [2, -1], [-1, 2]],
+    # >= 3 objectives, one objective compared componentwise, the others through a rotated cone: a box edge or
+    # diagonal keeps one W-coordinate constant while two others move in opposite directions
+    "tie3a": [[1, 0, 0], [0, 1, 1], [0, -1, 1]],
+    "tie3b": [[0, 1, 1], [1, 0, 0], [0, -1, 1]],
+    "tie3c": [[1, 0, 1], [0, 1, 0], [-1, 0, 1]],
+    "tie3d": [[1, 0, 0], [0, 2, 1], [0, -1, 2]],
+    "tie3e": [[1, 0, 0], [0, 1, 1], [0, -1, 1], [0, 0, 1]],
+    "tie4a": [[1, 0, 0, 0], [0, 1, 0, 0], [0, 0, 1, 1], [0, 0, -1, 1]],
+    "tie4b": [[1, 1, 0, 0], [-1, 1, 0, 0], [0, 0, 1, 1], [0, 0, -1, 1]],
 }
+TIE_CONES = ["tie3a", "tie3b", "tie3c", "tie3d", "tie3e", "tie4a", "tie4b"]
 
 
 def exact_cone(name):
@@ -209,6 +222,75 @@ def gen_pair_exact(rng, cname=None):
             "shape": shape}
 
 
+def _solve_exact(W, target):
+    """x with (first m rows of W) x = target[:m], as Fractions; None if singular"""
+    from fractions import Fraction as Fr
+
+    m = len(W[0])
+    A = [[Fr(W[i][j]) for j in range(m)] + [Fr(target[i])] for i in range(m)]
+    for c in range(m):
+        piv = next((r for r in range(c, m) if A[r][c] != 0), None)
+        if piv is None:
+            return None
+        A[c], A[piv] = A[piv], A[c]
+        A[c] = [v / A[c][c] for v in A[c]]
+        for r in range(m):
+            if r != c and A[r][c] != 0:
+                A[r] = [a - A[r][c] * b for a, b in zip(A[r], A[c])]
+    return [A[i][m] for i in range(m)]
+
+
+def gen_pair_tie(rng):
+    """constant-coordinate tie family (>= 3 objectives): a segment between two vertices of R2 along which one
+    W-coordinate is constant while others move in opposite directions; R1 sits just above the componentwise
+    minimum of the segment's end points (the lower corner of its bounding box in W-space, in general not a
+    point of W R2) with that constant coordinate tied exactly, e.g. rect1.lower[0] == rect2.lower[0]."""
+    from fractions import Fraction as Fr
+
+    cname = rng.choice(TIE_CONES)
+    W = exact_cone(cname)
+    N, m = len(W), len(W[0])
+    p = rng.choice([1, 2, 3])
+    for _ in range(30):
+        l2 = [_dy(rng, -6, 6, p) for _ in range(m)]
+        u2 = [a + rng.choice([0, 0, 1, 2, 4, 6]) / 2 ** p for a in l2]
+        V = [list(v) for v in itertools.product(*[[a, b] for a, b in zip(l2, u2)])]
+        pairs = []
+        for a in V:
+            for b in V:
+                da = [sum(Fr(w[k]) * (Fr(b[k]) - Fr(a[k])) for k in range(m)) for w in W]
+                zero = [k for k in range(N) if da[k] == 0]
+                if zero and any(t > 0 for t in da) and any(t < 0 for t in da):
+                    pairs.append((a, b, zero))
+        if not pairs:
+            continue
+        a, b, zero = rng.choice(pairs)
+        Wa = [sum(Fr(w[k]) * Fr(a[k]) for k in range(m)) for w in W]
+        Wb = [sum(Fr(w[k]) * Fr(b[k]) for k in range(m)) for w in W]
+        corner = [min(x, y) for x, y in zip(Wa, Wb)]
+        k0 = rng.choice(zero)
+        delta = [Fr(0) if k == k0 else Fr(rng.choice([0, 0, 1, 1, 2, 3]), 2 ** (p + 1)) for k in range(N)]
+        x = _solve_exact(W, [c + d for c, d in zip(corner, delta)])
+        if x is None or any(v.denominator & (v.denominator - 1) for v in x) or any(v.denominator > 64 for v in x):
+            continue
+        l1 = [float(v) for v in x]
+        u1 = list(l1)
+        mode = rng.choice(["point", "point", "thin", "face"])
+        if mode != "point":
+            for k in range(m):
+                if rng.random() < 0.5:
+                    u1[k] = l1[k] + rng.choice([1, 1, 2]) / 2 ** (p + 2)
+            if mode == "face":  # stretch the tied objective up to R2's upper bound, as rectangles sharing a face do
+                for k in range(m):
+                    if l1[k] == l2[k] and u2[k] > l1[k]:
+                        u1[k] = u2[k]
+        return {"kind": "pair", "exact": True, "cone": cname, "l1": l1, "u1": u1, "l2": l2, "u2": u2,
+                "shape": "const-coord-tie"}
+    c = gen_pair_exact(rng, cname)
+    c["shape"] = "const-coord-tie"
+    return c
+
+
 def gen_cone_float(rng):
     fam = rng.choice(["comp2", "comp3", "theta", "theta", "rand2", "rand2", "rand2", "c3d", "ice", "randNm",
                       "near-sing2"])
@@ -340,6 +422,69 @@ def gen_pess(rng, exact):
             "algo": rng.choice(["VOGP", "EpsilonPAL", "VOGP_AD"]), "shape": layout}
 
 
+def gen_pess_mutual(rng):
+    """active designs that pessimistically dominate EACH OTHER (cycles): repeated designs with identical
+    regions (one copy possibly already in P), different rectangles sharing a lower corner under the
+    componentwise order, regions still at the default +-1e12 box, and chains feeding into such cycles.  By
+    the definition every member of a cycle is excluded."""
+    layout = rng.choice(["identical", "identical", "shared-lower", "default-box", "chain+cycle", "chain+cycle"])
+    if layout == "shared-lower":
+        cname = rng.choice(["orthant2", "orthant3"])
+    elif rng.random() < 0.5:
+        cname = rng.choice(["orthant2", "acute2", "obtuse2", "threefacet2", "orthant3", "acute3", "tie3a"])
+    else:
+        cname = rng.choice(list(EXACT_CONES) + list(EXTRA_EXACT))
+    W = exact_cone(cname)
+    m = len(W[0])
+    p = rng.choice([0, 1, 2])
+    n = rng.randint(2, 7)
+
+    def box():
+        l = [_dy(rng, -6, 6, p) for _ in range(m)]
+        return l, [a + rng.choice([0, 1, 1, 2, 3]) / 2 ** p for a in l]
+
+    L, U = [], []
+    for _ in range(n):
+        l, u = box()
+        L.append(l)
+        U.append(u)
+    i, j = rng.sample(range(n), 2)
+    if layout == "identical":
+        L[j], U[j] = list(L[i]), list(U[i])
+        if n > 2 and rng.random() < 0.3:  # a triple
+            k = rng.choice([t for t in range(n) if t not in (i, j)])
+            L[k], U[k] = list(L[i]), list(U[i])
+    elif layout == "shared-lower":
+        L[j] = list(L[i])
+        U[j] = [a + rng.choice([0, 1, 2, 5]) / 2 ** p for a in L[j]]
+    elif layout == "default-box":
+        for k in range(n):
+            if k in (i, j) or rng.random() < 0.4:
+                L[k], U[k] = [-1e12] * m, [1e12] * m
+    else:  # chain + cycle: a ladder of boxes shifted along a cone direction, its top rung duplicated
+        c = _cone_dir_exact(rng, W, m, p)
+        if not any(c):
+            c = [1.0] * m if all(sum(w) >= 0 for w in W) else c
+        l, u = box()
+        for k in range(n):
+            L[k] = [a + k * cc for a, cc in zip(l, c)]
+            U[k] = [a + k * cc for a, cc in zip(u, c)]
+        L[n - 1], U[n - 1] = list(L[n - 2]), list(U[n - 2])
+        if n > 3 and rng.random() < 0.5:
+            L[0], U[0] = list(L[1]), list(U[1])
+        order_ = list(range(n))
+        rng.shuffle(order_)
+        L, U = [L[k] for k in order_], [U[k] for k in order_]
+        i, j = order_.index(n - 1), order_.index(n - 2)
+    act = sorted(set([i, j] + [k for k in range(n) if rng.random() < 0.8]))
+    S = [k for k in act if rng.random() < 0.6]
+    if rng.random() < 0.5 and j in S:
+        S.remove(j)  # one member of the cycle already in P
+    P = [k for k in act if k not in S or rng.random() < 0.1]
+    return {"kind": "pess", "exact": True, "cone": cname, "L": L, "U": U, "S": S, "P": P,
+            "algo": rng.choice(["VOGP", "EpsilonPAL", "VOGP_AD"]), "shape": "mutual-" + layout}
+
+
 def gen_seg(rng):
     D = rng.choice([2, 3, 4])
     if rng.random() < 0.5:
@@ -387,14 +532,18 @@ def gen(ctx):
         yield {"kind": "r64", "num": num, "den": den, "shape": "r64"}
     for _ in range(ctx.n(800, 50000)):
         r = rng.random()
-        if r < 0.40:
+        if r < 0.34:
             yield gen_pair_exact(rng)
-        elif r < 0.78:
+        elif r < 0.44:
+            yield gen_pair_tie(rng)
+        elif r < 0.74:
             yield gen_pair_float(rng)
-        elif r < 0.86:
+        elif r < 0.81:
             yield gen_pess(rng, True)
-        elif r < 0.94:
+        elif r < 0.88:
             yield gen_pess(rng, False)
+        elif r < 0.95:
+            yield gen_pess_mutual(rng)
         else:
             yield gen_seg(rng)
 
@@ -568,6 +717,30 @@ def run_pess(ctx, case):
         return
     act = sorted(set(case["S"]) | set(case["P"]))
     ws, Ls, Us = core.qmat(W), core.qmat(L), core.qmat(U)
+    ctx.count("pess_shape_" + case.get("shape", "?"))
+    # ---- (R) last clause of the property, with the real comparison as "pessimistically dominates":
+    # the set is exactly {i active | no OTHER active j with check_dominates(R_j, R_i)} (cycles exclude all members)
+    from vopy.confidence_region import confidence_region_check_dominates
+
+    regs = ds.confidence_regions
+    try:
+        dom = {(j, i): bool(confidence_region_check_dominates(order, regs[j], regs[i]))
+               for i in act for j in act if j != i}
+    except Exception as e:
+        ctx.violation("crash:" + core.exc_key(e), f"check_dominates raised {type(e).__name__}: {e}", case)
+        return
+    defn = [i for i in act if not any(dom[(j, i)] for j in act if j != i)]
+    if any(dom[(j, i)] and dom[(i, j)] for i in act for j in act if i < j):
+        ctx.count("pess_mutual_domination_present")
+    if real != defn:
+        kept = [i for i in real if i not in defn]
+        lost = [i for i in defn if i not in real]
+        ctx.violation("pess-set-definition",
+                      "compute_pessimistic_set is not {i active | no other active j with check_dominates(R_j, R_i)}: "
+                      + (f"returns {kept} although active design(s) "
+                         f"{[j for j in act for i in kept[:1] if j != i and dom[(j, i)]]} pessimistically dominate it"
+                         if kept else f"drops {lost} which no other active design pessimistically dominates"),
+                      case, detail={"impl": real, "definition": defn})
     mirror_ok = True
     if case["exact"]:
         mf = core.parse_nats(ctx.ask("pessf", ws, Ls, Us, core.nats(act)))
